@@ -14,8 +14,9 @@ from .source import GenSource, ReplaySource, mix
 
 HERE = os.path.dirname(os.path.dirname(os.path.abspath(__file__)))
 PROPERTY = 'C20'
-EVIDENCE = os.path.join(HERE, 'evidence', PROPERTY + '.json')
-REPLAYS = os.path.join(HERE, 'replays')
+_OUT = os.environ.get('VERIF_OUT_DIR')  # self-tests redirect their output away from /verif
+EVIDENCE = os.path.join(_OUT or os.path.join(HERE, 'evidence'), PROPERTY + '.json')
+REPLAYS = os.path.join(_OUT, 'replays') if _OUT else os.path.join(HERE, 'replays')
 KNOWN = os.path.join(HERE, 'KNOWN_FINDINGS.txt')
 _perf = runner._perf
 
@@ -133,21 +134,28 @@ def report_violations(results, seed, tier, do_minimise=True, max_keys=8):
     n_new = n_known = 0
     trouble = False
     os.makedirs(REPLAYS, exist_ok=True)
-    for n, (k, (r, v, cnt)) in enumerate(groups.items()):
+    todo = []
+    for k, (r, v, cnt) in groups.items():
         ks = keystr(k)
         if ks in known:
             print('KNOWN-FINDING: property=%s %s (%s; seen in %d runs of this batch)' % (PROPERTY, ks, known[ks], cnt))
             n_known += 1
             continue
-        plan = r['plan']
-        path = os.path.join(REPLAYS, '%s-%s-%s-%d-%s.json' % (PROPERTY, r['engine'], tier, r['run_seed'] % 10 ** 8,
-                                                            k[0].replace('.', '')))
-        trials = 0
-        vmin = v
-        if do_minimise and n < max_keys:
-            plan2, v2, trials = mz.minimise(plan, k)
-            if v2 is not None:
-                plan, vmin = plan2, v2
+        todo.append((k, r, v, cnt))
+    # minimise the first max_keys classes in parallel
+    mins = {}
+    if do_minimise and todo:
+        jobs = [(t[1]['plan'], t[0]) for t in todo[:max_keys]]
+        with ProcessPoolExecutor(min(8, len(jobs)), mp_context=mp.get_context('fork'), initializer=_init_worker) as ex:
+            for (k, r, v, cnt), res in zip(todo[:max_keys], ex.map(_min_job, jobs)):
+                mins[k] = res
+    for k, r, v, cnt in todo:
+        ks = keystr(k)
+        plan, vmin, trials = r['plan'], v, 0
+        if k in mins and mins[k][1] is not None:
+            plan, vmin, trials = mins[k]
+        path = os.path.join(REPLAYS, '%s-%s-%s-%d-%s-%s.json' % (PROPERTY, r['engine'], tier, r['run_seed'] % 10 ** 8,
+                                                               k[0].replace('.', ''), _slug(k[1])))
         doc = {'property': PROPERTY, 'key': list(k), 'violation': vmin, 'found': {
             'verif_seed': seed, 'engine': r['engine'], 'run_index': r['idx'], 'run_seed': r['run_seed'],
             'runs_in_batch_with_this_key': cnt, 'minimise_trials': trials}, 'plan': plan}
@@ -164,6 +172,16 @@ def report_violations(results, seed, tier, do_minimise=True, max_keys=8):
             print(rc.stdout[-800:])
             trouble = True
     return n_new, n_known, trouble
+
+
+def _slug(s):
+    return ''.join(c if c.isalnum() else '_' for c in str(s))[:40]
+
+
+def _min_job(job):
+    from . import minimise as mz
+    plan, key = job
+    return mz.minimise(plan, key, 80)
 
 
 def write_evidence(results, seed, tier, wall, nviol, extra=None):
